@@ -22,8 +22,90 @@ pub struct LeakCase {
     pub req: DefectCase,
 }
 
+#[derive(Clone, Debug, Serialize, Deserialize)]
+pub struct PlanLeak {
+    pub plan: crate::gen::Plan,
+    /// how the presented signature is spoiled: 0 correct, 1 one digit, 2 non-hex, 3 upper-case wrong, 4 too long, 5 too short, 6 empty
+    pub spoil: u8,
+}
+
+/// The same search over the full request generator: every region / service name of the dictionary (incl. "s3"),
+/// every shape of access key and secret, tokens, both carriers, all options.
+pub fn check_plan_leak(pl: &PlanLeak, cc: &mut CaseCtx) -> CheckResult {
+    exec::enable_log_capture();
+    let Ok(built) = pl.plan.build() else { return Ok(()) };
+    let mut case = built.case.clone();
+    let sig = built.signed.signature.clone();
+    let presented = match pl.spoil % 7 {
+        0 => sig.clone(),
+        1 => format!("{}{}", if sig.starts_with('0') { "1" } else { "0" }, &sig[1..]),
+        2 => "Z".repeat(64),
+        3 => format!("{}{}", if sig.starts_with('a') { "B" } else { "A" }, &sig[1..]).to_ascii_uppercase(),
+        4 => format!("{}0", sig),
+        5 => sig[..63].to_string(),
+        _ => String::new(),
+    };
+    if presented != sig && !super::c01::replace_signature(&mut case.req, &sig, &presented) {
+        return Ok(());
+    }
+    let (o, logs) = exec::with_logs(|| exec::run(&case));
+    check_total(&o)?;
+    if let exec::Res::Unrepresentable(_) = o.res {
+        return Ok(());
+    }
+    let secret = pl.plan.entry.secret.as_bytes();
+    if secret.len() < 12 {
+        // too short for a substring hit to mean anything
+        cc.class("short-secret-skipped");
+        return Ok(());
+    }
+    let chain = key_chain(secret, &pl.plan.instant.date8(), &case.cfg.region, &case.cfg.service);
+    let mut nd = needles("secret key", secret);
+    for (i, name) in ["kDate", "kRegion", "kService", "kSigning"].iter().enumerate() {
+        nd.extend(needles(name, &chain[i]));
+    }
+    let refused = !o.res.is_ok();
+    if refused && presented != sig {
+        nd.push(("the correct signature of a refused request".into(), sig.clone()));
+        nd.push(("the correct signature of a refused request (upper case)".into(), sig.to_ascii_uppercase()));
+    }
+    // the access key and token are not secret, but a secret that merely LOOKS like one of them still is
+    let mut texts: Vec<(String, String)> = Vec::new();
+    for (lvl, msg) in &logs {
+        if *lvl <= log::Level::Debug {
+            texts.push((format!("log record at {}", lvl), msg.clone()));
+        }
+    }
+    if let exec::Res::Err(e) = &o.res {
+        texts.push(("error Display".into(), e.msg.clone()));
+        texts.push(("error Debug".into(), e.debug.clone()));
+    }
+    // a secret that is a substring of something the request itself carries (access key == secret prefix...) would be a false hit
+    let carried = format!("{}{}{:?}", case.req.uri, latin1(&case.req.body.0), case.req.headers);
+    if carried.contains(&pl.plan.entry.secret) {
+        cc.class("secret-occurs-in-request-skipped");
+        return Ok(());
+    }
+    cc.class(if refused { "refused" } else { "accepted" });
+    cc.class_if(case.cfg.service == "s3", "service-s3");
+    cc.class_if(refused && presented != sig, "refused-with-wrong-signature");
+    cc.nontrivial(digest_of(&[&case.req.digest().to_le_bytes(), &[pl.spoil], secret]));
+    if let Some((origin, what)) = search(&texts, &nd) {
+        return Err(Failure::new(&format!("leak:{}", origin.split(' ').next().unwrap_or("")), format!("{} contains {}", origin, what)));
+    }
+    Ok(())
+}
+
 pub fn subs() -> Vec<Box<dyn AnySub>> {
-    vec![Box::new(Sub {
+    vec![
+        Box::new(Sub {
+            name: "leaks-generated-requests",
+            quick: 15_000,
+            thorough: 250_000,
+            strat: || (crate::gen::plan(crate::gen::PlanOpts { plain_spelling: true, ..crate::gen::PlanOpts::default() }), 0u8..7).prop_map(|(plan, spoil)| PlanLeak { plan, spoil }).boxed(),
+            check: check_plan_leak,
+        }),
+        Box::new(Sub {
         name: "leaks",
         quick: 12_000,
         thorough: 200_000,
@@ -44,7 +126,8 @@ pub fn subs() -> Vec<Box<dyn AnySub>> {
                 .boxed()
         },
         check: check_leak,
-    })]
+    }),
+    ]
 }
 
 /// All the renderings of one secret byte string that count as a leak.
